@@ -662,7 +662,101 @@ MESSAGES = {
     "rewindable_off": lambda: Msg("rewindable", None, False), "rewindable_on": lambda: Msg("rewindable", None, True),
     "pause": lambda: Msg("pause", None, defer=False), "pause_defer": lambda: Msg("pause", None, defer=True),
     "open_run": lambda: Msg("open_run"), "close_run": lambda: Msg("close_run"), "sleep": lambda: Msg("sleep", None, 1),
+    # concurrent runs (C14): a string key and a falsy key
+    "open_run@a": lambda: Msg("open_run", run="a"), "close_run@a": lambda: Msg("close_run", run="a"),
+    "open_run@0": lambda: Msg("open_run", run=0), "close_run@0": lambda: Msg("close_run", run=0),
 }
+
+# C14: what the engine does to the open runs, observed by spies on the real RunBundler methods
+BUNDLER_STEPS = ("record_interruption", "suspend_monitors", "restore_monitors", "rewind", "reset_checkpoint_state", "clear_checkpoint", "clear_monitors")
+
+
+def install_bundler_spies(blog):
+    """log ('open', n, key) / ('close', n, key) / ('step', kind, n) for every RunBundler (n = order of creation); calls a bundler
+    makes on itself (open_run / close_run / monitor / unmonitor reset their own checkpoint state) are not steps of the engine"""
+    import inspect
+
+    from bluesky.bundlers import RunBundler
+    numbers = {}
+    saved = {}
+
+    def number(b):
+        return numbers.setdefault(id(b), len(numbers) + 1)
+
+    def wrap(name, orig):
+        outer = name in ("open_run", "close_run", "monitor", "unmonitor")
+
+        def before(self, a):
+            depth = getattr(self, "_c14_depth", 0)
+            if depth == 0 and name in BUNDLER_STEPS:
+                blog.append(("step", name, number(self)))
+            if name == "close_run" and depth == 0:
+                m = a[0]
+                blog.append(("close", number(self), m.run, "exit_status" in m.kwargs))
+            if outer:
+                self._c14_depth = depth + 1
+
+        def after(self, a):
+            if outer:
+                self._c14_depth -= 1
+            if name == "open_run" and self._c14_depth == 0:
+                blog.append(("open", number(self), a[0].run))
+        if inspect.iscoroutinefunction(orig):
+            async def f(self, *a, **k):
+                before(self, a)
+                try:
+                    return await orig(self, *a, **k)
+                finally:
+                    after(self, a)
+        else:
+            def f(self, *a, **k):
+                before(self, a)
+                try:
+                    return orig(self, *a, **k)
+                finally:
+                    after(self, a)
+        return f
+    for name in BUNDLER_STEPS + ("open_run", "close_run", "monitor", "unmonitor"):
+        saved[name] = RunBundler.__dict__[name]
+        setattr(RunBundler, name, wrap(name, saved[name]))
+
+    def restore():
+        for name, orig in saved.items():
+            setattr(RunBundler, name, orig)
+    return restore
+
+
+def concurrent_runs_ghost(blog):
+    """mirror of contracts/C14.py:C14Runs over the native log: per pair of open runs the steps each got since the younger was opened
+    must be equal whenever a blocking call has returned and when one of the two is closed"""
+    bad, lag, key_of, is_open, closed = [], {}, {}, set(), {}
+
+    def compare(pairs, where):
+        for p in pairs:
+            for k, v in lag[p].items():
+                if v:
+                    bad.append(f"{where}: run #{p[0]} got {abs(v)} {k} {'more' if v > 0 else 'fewer'} than run #{p[1]}")
+    for e in blog:
+        if e[0] == "open":
+            for o in is_open:
+                lag[(o, e[1])] = {}
+            is_open.add(e[1])
+            key_of[e[1]] = e[2]
+        elif e[0] == "close":
+            compare([p for p in lag if e[1] in p], "when a run was closed")
+            for p in [p for p in lag if e[1] in p]:
+                del lag[p]
+            is_open.discard(e[1])
+            closed[e[1]] = closed.get(e[1], 0) + 1
+        elif e[0] == "step":
+            for (o, y), d in lag.items():
+                if e[2] == o:
+                    d[e[1]] = d.get(e[1], 0) + 1
+                elif e[2] == y:
+                    d[e[1]] = d.get(e[1], 0) - 1
+        elif e[0] == "returned":
+            compare(list(lag), f"after {e[1]} returned (state {e[2]})")
+    return bad, key_of, closed
 
 
 def install_shim(ctl):
@@ -692,6 +786,8 @@ def run_native(decisions, msgs, opts=None):
     bre._ensure_event_loop_running.loop_to_thread[ctl.loop] = threading.current_thread()
     docs = []
     out = {"calls": [], "docs": docs}
+    blog = out["bundler_log"] = []
+    restore_bundler = install_bundler_spies(blog)
 
     def construct():
         RE = RunEngine({}, loop=ctl.loop, context_managers=[], during_task=DuringTask())
@@ -716,6 +812,7 @@ def run_native(decisions, msgs, opts=None):
                              "state": str(RE.state), "resumable": RE._msg_cache is not None, "open_runs": len(open_runs), "plan": ctl.plan_done,
                              "interrupted": RE._interrupted, "deferred": bool(RE.deferred_pause_requested), "doomed": ctl.doomed,
                              "trace_len": len(ctl.trace), "uids": list(RE._run_start_uids), "monitors_live": ctl.monitors()[0]})
+        blog.append(("returned", name, str(RE.state)))
         if str(RE.state) == "idle":
             ctl.doomed = None
             out["calls"][-1]["ledger"] = list(LEDGER)
@@ -770,6 +867,7 @@ def run_native(decisions, msgs, opts=None):
     out["log"] = ctl.log
     out["plan_exc"] = getattr(ctl, "plan_exc", None)
     out["loop_errors"] = [str(c.get("exception")) for c in ctl.loop.errors]
+    restore_bundler()
     with ctl.state_lock:
         ctl.cmds.append(None)
         ctl.state_lock.notify_all()
@@ -782,6 +880,27 @@ def _violations(obligation, res):
     """re-statement of the obligations of contracts/run_mon.py over the native trace"""
     bad = []
     tag = obligation.split("#", 1)[-1]
+    if "[concurrent runs:" in tag:
+        # C14 (contracts/C14.py:C14Runs)
+        uneven, key_of, closed = concurrent_runs_ghost(res.get("bundler_log", []))
+        if tag.startswith("invariant[concurrent runs: whatever an interruption does"):
+            return uneven
+        if tag.startswith("ensures[concurrent runs: a close_run message"):
+            for e in res.get("bundler_log", []):
+                if e[0] == "close" and not e[3] and not (e[1] in key_of and key_of[e[1]] == e[2] and type(key_of[e[1]]) is type(e[2])):
+                    bad.append(f"close_run for key {e[2]!r} closed run #{e[1]}, opened under key {key_of.get(e[1])!r}")
+            return bad
+        if tag.startswith("ensures[concurrent runs: when the engine is idle again"):
+            last = res["calls"][-1] if res["calls"] else None
+            if last is not None and last["state"] == "idle":
+                starts = [d["uid"] for n, d, _ in res["docs"] if n == "start"]
+                stops = [d["run_start"] for n, d, _ in res["docs"] if n == "stop"]
+                for i, u in enumerate(starts):
+                    if stops.count(u) != 1:
+                        bad.append(f"run #{i + 1} has {stops.count(u)} stop documents although the engine is idle")
+                if last["open_runs"]:
+                    bad.append(f"{last['open_runs']} runs still open although the engine is idle")
+            return bad
     for c in res["calls"]:
         st = c["state"]
         if tag.startswith("lifecycle[after a blocking call"):
